@@ -139,7 +139,20 @@ impl MandatoryHeaderExtensionManager for TableMgr {
     }
 }
 
-type Dec = Decapsulator<SimpleGseMemory, DefaultCrc, TableMgr>;
+/// The calculator given to both sides: the default CRC-32 xor-ed with a session-chosen constant, so that
+/// "the calculator in use" is observable (`set_crc_calculator`, the calculator handed to `Decapsulator::new`).
+#[derive(Debug, Clone, Copy, PartialEq, Eq)]
+struct HCrc {
+    xor: u32,
+}
+
+impl CrcCalculator for HCrc {
+    fn calculate_crc32(&self, pdu: &[u8], protocol_type: u16, total_length: u16, label: &[u8]) -> u32 {
+        DefaultCrc {}.calculate_crc32(pdu, protocol_type, total_length, label) ^ self.xor
+    }
+}
+
+type Dec = Decapsulator<SimpleGseMemory, HCrc, TableMgr>;
 
 struct Reg {
     data: Vec<u8>,
@@ -147,7 +160,7 @@ struct Reg {
 }
 
 struct Sess {
-    enc: Encapsulator<DefaultCrc>,
+    enc: Encapsulator<HCrc>,
     dec: Option<Dec>,
     regs: HashMap<usize, Reg>,
     ctxs: HashMap<usize, ContextFrag>,
@@ -164,7 +177,7 @@ struct Sess {
 impl Sess {
     fn new() -> Self {
         Sess {
-            enc: Encapsulator::new(DefaultCrc {}),
+            enc: Encapsulator::new(HCrc { xor: 0 }),
             dec: None,
             regs: HashMap::new(),
             ctxs: HashMap::new(),
@@ -831,7 +844,7 @@ fn step_inner(s: &mut Sess, toks: &[&str]) -> Option<String> {
             })
         }
         ["enc_new"] => {
-            s.enc = Encapsulator::new(DefaultCrc {});
+            s.enc = Encapsulator::new(HCrc { xor: 0 });
             Some(format!("ok | {}", s.fmt_enc()))
         }
         ["enc_reset"] => {
@@ -847,7 +860,12 @@ fn step_inner(s: &mut Sess, toks: &[&str]) -> Option<String> {
             Some(format!("ok | {}", s.fmt_enc()))
         }
         ["enc_set_crc"] => {
-            s.enc.set_crc_calculator(DefaultCrc {});
+            s.enc.set_crc_calculator(HCrc { xor: 0 });
+            Some(format!("ok | {}", s.fmt_enc()))
+        }
+        ["enc_set_crc", k] => {
+            let k: u32 = k.parse().ok()?;
+            s.enc.set_crc_calculator(HCrc { xor: k });
             Some(format!("ok | {}", s.fmt_enc()))
         }
         ["enc_enable_max", n] => {
@@ -967,7 +985,22 @@ fn step_inner(s: &mut Sess, toks: &[&str]) -> Option<String> {
             };
             let mem = SimpleGseMemory::new(n, sz, 0, 0);
             s.maxpdu = sz;
-            s.dec = Some(Decapsulator::new(mem, DefaultCrc {}, m));
+            s.dec = Some(Decapsulator::new(mem, HCrc { xor: 0 }, m));
+            Some(format!("ok | {}", s.fmt_dec()))
+        }
+        ["dec_new", slots, maxpdu, mgr, k] => {
+            let k: u32 = k.parse().ok()?;
+            let n: usize = slots.parse().ok()?;
+            let sz: usize = maxpdu.parse().ok()?;
+            let m = if *mgr == "sig" {
+                TableMgr { kind: 1, table: vec![] }
+            } else {
+                let t = parse_mgr(mgr)?;
+                TableMgr { kind: if t.is_empty() { 0 } else { 2 }, table: t }
+            };
+            let mem = SimpleGseMemory::new(n, sz, 0, 0);
+            s.maxpdu = sz;
+            s.dec = Some(Decapsulator::new(mem, HCrc { xor: k }, m));
             Some(format!("ok | {}", s.fmt_dec()))
         }
         ["prov", len, fill] => {
@@ -1080,7 +1113,7 @@ fn step_inner(s: &mut Sess, toks: &[&str]) -> Option<String> {
                 None => {
                     scratch = Decapsulator::new(
                         SimpleGseMemory::new(1, 1, 0, 0),
-                        DefaultCrc {},
+                        HCrc { xor: 0 },
                         TableMgr { kind: 0, table: vec![] },
                     );
                     &scratch
